@@ -233,8 +233,8 @@ func (i UInt64) ExponentiateUInt64(other UInt64) UInt64 {
 		return 1
 	}
 	result := i
-	var j UInt64
-	for j = 2; j <= other; j++ {
+	// count down: an upward counter of the same type wraps around when `other` is the type's maximum
+	for j := other; j >= 2; j-- {
 		result *= i
 	}
 	return result
